@@ -21,7 +21,7 @@ fn same_hf(a: &SegmentHopField, b: &SegmentHopField) -> bool {
     a.expiration_units == b.expiration_units && a.cons_ingress == b.cons_ingress && a.cons_egress == b.cons_egress && a.mac.0 == b.mac.0
 }
 
-// verif: prop=C18 tier=quick cap=600 bound="every SegmentHopField / HopEntry / PeerEntry / SegmentInfo value" fns="SegmentHopField/HopEntry/PeerEntry/SegmentInfo::{into_rpc,try_from_rpc}" stubs="alloc::fmt::format -> empty string"
+// verif: prop=C18 tier=quick cap=900 mem=16 bound="every SegmentHopField / HopEntry / PeerEntry / SegmentInfo value" fns="SegmentHopField/HopEntry/PeerEntry/SegmentInfo::{into_rpc,try_from_rpc}" stubs="alloc::fmt::format -> empty string"
 #[kani::proof]
 #[kani::unwind(8)]
 #[kani::stub(alloc::fmt::format, fmt_stub)]
